@@ -308,6 +308,10 @@ func (c *C) attemptConnect(ctx context.Context, lmtp bool, endp config.Endpoint,
 func (c *C) Mail(ctx context.Context, from string, opts smtp.MailOptions) error {
 	defer trace.StartRegion(ctx, "smtpconn/MAIL FROM").End()
 
+	// New transaction, forget recipients of the previous one (the connection
+	// may be reused).
+	c.rcpts = nil
+
 	outOpts := smtp.MailOptions{
 		// Future extensions may add additional fields that should not be
 		// copied blindly. So we copy only fields we know should be handled
@@ -376,10 +380,14 @@ func (c *C) Rcpt(ctx context.Context, to string, opts smtp.RcptOptions) error {
 		// TODO: DSN support
 	}
 
+	// The address in the form used on the wire. c.rcpts keeps the address as
+	// it was passed by the caller so the caller can match statuses with it.
+	wireTo := to
+
 	// If necessary, the extension flag is enabled in Start.
 	if ok, _ := c.cl.Extension("SMTPUTF8"); !address.IsASCII(to) && !ok {
 		var err error
-		to, err = address.ToASCII(to)
+		wireTo, err = address.ToASCII(to)
 		if err != nil {
 			return &exterrors.SMTPError{
 				Code:         553,
@@ -393,7 +401,7 @@ func (c *C) Rcpt(ctx context.Context, to string, opts smtp.RcptOptions) error {
 		}
 	}
 
-	if err := c.cl.Rcpt(to, outOpts); err != nil {
+	if err := c.cl.Rcpt(wireTo, outOpts); err != nil {
 		return c.wrapClientErr(err, c.serverName)
 	}
 
